@@ -239,3 +239,27 @@ impl Summary {
         println!("{}", Value::Object(self.map));
     }
 }
+
+/// run_script under a watchdog: a helper thread raises the run's own halt flag after `ms`
+/// milliseconds unless the run finished first (the flag belongs to this run only, so a slow run can
+/// never halt a later one).  Returns (result, halted_by_watchdog).  Loops inside a single command
+/// do not poll the flag; callers that may meet those use a subprocess (see c07).
+pub fn run_timed(text: &str, ctx: Context, ms: u64) -> (Result<Result<Context, ScriptError>, String>, bool) {
+    use std::sync::atomic::{AtomicBool, Ordering};
+    use std::sync::Arc;
+    let halt = Arc::new(AtomicBool::new(false));
+    let fired = Arc::new(AtomicBool::new(false));
+    let (tx, rx) = std::sync::mpsc::channel::<()>();
+    let (h2, f2) = (halt.clone(), fired.clone());
+    let t = std::thread::spawn(move || {
+        if let Err(std::sync::mpsc::RecvTimeoutError::Timeout) = rx.recv_timeout(std::time::Duration::from_millis(ms)) {
+            f2.store(true, Ordering::SeqCst);
+            h2.store(true, Ordering::SeqCst);
+        }
+    });
+    let env = Env::new(Some(Box::new(std::io::sink())), Some(Box::new(std::io::sink())), Some(halt));
+    let r = run_guarded(text, ctx, Some(env));
+    drop(tx);
+    let _ = t.join();
+    (r, fired.load(Ordering::SeqCst))
+}
